@@ -67,7 +67,7 @@ CHECKS = {
     ),
     "C17": dict(
         level="proof",
-        campaigns=[dict(engine="metrics", n=n(250, 5000))],
+        campaigns=[dict(engine="metrics", n=n(250, 5000)), TCP_CAMP],
         trusted_base=["model Model/TunnelTime.lean (activeClients, startConnection, stopConnection, reportTunnelTime, Collect) and Model/Metrics.lean (the callers) of prometheus/metrics.go, hand-written, tied by the `metrics` campaign: real collectors on a private registry, clock stubbed through the verif hook (prometheus/verif_export.go VerifSetNow), gathered tunnel_time_seconds* compared after every scrape with the model and with independent interval arithmetic"],
         assumptions=["the clock is non-decreasing (time.Now is monotonic in Go); time is whole seconds in the model, the campaign advances the clock in whole and fractional seconds and compares floor values where the code truncates",
                      "stops are matched with starts: C15 (authenticated iff authentication succeeded, closed once) and C16 (added once, removed once)"],
